@@ -13,6 +13,10 @@ def run(ctx: Ctx) -> None:
         T.run_composites(ctx)
         S.run_transformers(ctx)
         T.run_generic(ctx)
+    from ..tables import t2_rot
+    with ctx.only("T2.euler-matrix"):  # parameter -> matrix map of EulerRotation for every order and notation (shared with C08)
+        t2_rot.run_euler(ctx)
+    ctx.floor("T2.euler-matrix", 24)
     ctx.floor("T67.generic", 12)
     ctx.floor("T12.identity", 40)
     ctx.floor("T67.views", 20)
